@@ -411,7 +411,7 @@ func (q *Seq) Coq() string {
 
 // Emit emits the recorded sequence. specOK/sig/what: the verdict of the caller's oracle.
 func (q *Seq) Emit(class, desc string, specOK bool, sig, what string, nt bool) {
-	if len(q.Bad) > 0 && specOK {
+	if len(q.Bad) > 0 { // what was noticed while stepping is the more specific finding
 		specOK = false
 		what = q.Bad[0]
 		switch {
@@ -432,6 +432,7 @@ func (q *Seq) Emit(class, desc string, specOK bool, sig, what string, nt bool) {
 	if len(q.steps) > 0 {
 		fn, coq = alias("hs_seq_ok"), q.Coq()
 	}
+	hv.Info(map[string]interface{}{"sequence": class, "readPacket_steps": q.N, "steps_given_to_model": len(q.steps)})
 	hv.Emit(hv.Case{Fn: fn, Coq: coq, Class: class, Desc: d, Spec: specOK, Sig: sig, What: what, NT: nt, Key: desc + fmt.Sprint(len(q.Desc), len(coq)),
 		Replay: map[string]interface{}{"class": class, "steps": q.Desc}})
 }
